@@ -21,6 +21,9 @@ type Store struct {
 	// Eager makes the store hand out a node for every non-presence container, also one that holds nothing yet (the way
 	// a Go struct with value-typed container fields does); the container joins the data with the first thing written into it.
 	Eager bool
+	// Prefill makes every container and list entry the store creates come into being holding data already (the way an
+	// application constructor does): see PrefillOf
+	Prefill bool
 	// write log (captures only): names written per node, in order; creations per parent
 	logWrites bool
 	writeLog  map[*DNode][]string
@@ -146,6 +149,11 @@ func (n *refNode) Child(r node.ChildRequest) (node.Node, error) {
 			n.st.problem("container %s created although it exists", name)
 		}
 		n.d.Kids[name] = NewDNode(sn)
+		if n.st.Prefill {
+			for ln, lv := range PrefillOf(sn) {
+				n.d.Kids[name].Leaves[ln] = lv
+			}
+		}
 		n.st.logWrite(n.d, name)
 	}
 	k := n.d.Kids[name]
@@ -294,6 +302,11 @@ func (l *refList) Next(r node.ListRequest) (node.Node, []val.Value, error) {
 	sn := dl.S
 	if r.New {
 		e := NewDNode(sn)
+		if l.st.Prefill {
+			for ln, lv := range PrefillOf(sn) {
+				e.Leaves[ln] = lv
+			}
+		}
 		if len(r.Key) > 0 {
 			ks, err := l.keyStrings(sn, r.Key)
 			if err != nil {
@@ -357,3 +370,29 @@ func (l *refList) Notify(r node.NotifyRequest) (node.NotifyCloser, error) {
 func (l *refList) Peek(sel *node.Selection, consumer interface{}) interface{} { return l.list() }
 func (l *refList) Context(sel *node.Selection) context.Context                { return sel.Context }
 func (l *refList) Release(sel *node.Selection)                                {}
+
+// PrefillOf is what a container or list entry of sn holds the moment a prefilling store creates it: a value for the first plain
+// leaf of the first case of its first choice that has at least two cases. A node created by an edit that writes another case of
+// that choice has to end up with that other case only.
+func PrefillOf(sn *SNode) map[string]*LVal {
+	for _, ch := range sn.Children {
+		if ch.Kind != Choice || len(ch.Children) < 2 || ch.Module != "" {
+			continue
+		}
+		for _, m := range ch.Children[0].Children {
+			if m.Kind != Leaf || m.Type == nil || m.Type.Wrap != "" || m.Module != "" {
+				continue
+			}
+			switch m.Type.Base {
+			case "string":
+				return map[string]*LVal{m.Name: {V: []string{"prefilled"}}}
+			case "int8", "int16", "int32", "int64", "uint8", "uint16", "uint32", "uint64":
+				return map[string]*LVal{m.Name: {V: []string{"1"}}}
+			case "boolean":
+				return map[string]*LVal{m.Name: {V: []string{"true"}}}
+			}
+		}
+		return nil
+	}
+	return nil
+}
